@@ -49,6 +49,7 @@ class Module:
         from . import alpha
         alpha.pre_normalise(self.tree)
         self.renamed = alpha.normalise(self.tree, name)
+        alpha.order_compares(self.tree)
         self.relpath = os.path.relpath(path, REPO)
         for parent in ast.walk(self.tree):
             for child in ast.iter_child_nodes(parent):
